@@ -8,7 +8,6 @@ namespace Echse.Ical
 structure Pre (p : Parser) (A : Abs) : Prop where
   rel : Rel p A
   inv : Inv A
-  good : Good A.sc (rest p)
   nobsl : ∀ c ∈ rest p, c ≠ BSL
 
 theorem bpOf_eq (p : Parser) : bpOf p = (rest p).headD 0 := by
@@ -23,9 +22,6 @@ theorem rest_bix_succ (p : Parser) (c : Byte) (r : List Byte) (h : rest p = c ::
   have : p.buf.drop (p.bix + 1) = (p.buf.drop p.bix).drop 1 := by rw [List.drop_drop]
   rw [this, h]; rfl
 
-theorem flushA_of_nil (A : Abs) (h : A.cur = []) : flushA A = { A with sc := {} } := by
-  unfold flushA; rw [if_pos h]
-
 theorem marked_iff (p : Parser) : Marked p ↔ p.eolp = true := Iff.rfl
 
 /-- from the round's start to `chop_more` -/
@@ -37,7 +33,6 @@ theorem pre_chop (p : Parser) (A : Abs) (h : Pre p A) (hne : rest p ≠ [])
   | nil => exact absurd hr hne
   | cons c r =>
     have hbp : bpOf p = c := by rw [bpOf_eq, hr]; rfl
-    have hg := h.good; rw [hr, good_cons] at hg
     by_cases hm : Marked p
     · -- the mark is there and fold whitespace follows (be the line empty so far or not)
       have hf : isFold c = true := by
@@ -48,14 +43,13 @@ theorem pre_chop (p : Parser) (A : Abs) (h : Pre p A) (hne : rest p ≠ [])
         unfold preChop; rw [if_pos hm]
       have hrest : rest (preChop p) = r := by
         rw [hpre]; exact rest_bix_succ p c r hr
-      refine ⟨{ A with sc := stepSc A.sc c }, ⟨?_, ?_, ?_, ?_⟩, ?_, rfl, ?_⟩
+      refine ⟨{ A with sc := stepSc A.sc c }, ⟨?_, ?_, ?_⟩, ?_, rfl, ?_⟩
       · rw [hpre]
-        refine ⟨h.rel.stash, h.rel.comp, h.rel.log, ?_⟩
+        refine ⟨h.rel.fits, h.rel.over, h.rel.comp, h.rel.log, ?_⟩
         show false = true ↔ (stepSc A.sc c).pend = true
         rw [stepSc_pend_fold _ _ hpend hf]
       · have := stepA_inv A c h.inv
         rw [stepA_pend_fold A c hpend hf] at this; exact this
-      · rw [hrest]; exact hg.2
       · rw [hrest]; intro d hd; exact h.nobsl d (by rw [hr]; simp [hd])
       · show (stepSc A.sc c).pend = false
         rw [stepSc_pend_fold _ _ hpend hf]
